@@ -435,9 +435,9 @@ func faultCaseBig(w *W, idx int, async bool) {
 
 func faultPlan(tier string) []Plan {
 	if tier == "thorough" {
-		return []Plan{{Cases: 2880, Workers: 16, MaxProcs: 1, Timeout: 120 * time.Minute}, {Cases: 960, Workers: 8, MaxProcs: 4, Timeout: 120 * time.Minute}}
+		return []Plan{{Cases: 2880, Workers: 16, MaxProcs: 1, Timeout: 120 * time.Minute}, {Cases: 960, Workers: 8, MaxProcs: 4, Timeout: 120 * time.Minute, Recycle: 10}}
 	}
-	return []Plan{{Cases: 96, Workers: 16, MaxProcs: 1, Timeout: 15 * time.Minute}, {Cases: 24, Workers: 8, MaxProcs: 4, Timeout: 15 * time.Minute}}
+	return []Plan{{Cases: 96, Workers: 16, MaxProcs: 1, Timeout: 15 * time.Minute}, {Cases: 24, Workers: 8, MaxProcs: 4, Timeout: 15 * time.Minute, Recycle: 10}}
 }
 
 func init() {
